@@ -114,11 +114,83 @@ def sem_or_def(o, packet):
                                  exists(lambda i: sem_and(at(o.ands, i), packet), 0, len(o.ands)))
 
 
+@opaque('rec', 'packet', 'bool')
+def sem_bexp(b, packet):
+    """denotation of a BooleanExpression object (single condition, ANDed group or ORed group)"""
+    return (sem_cond(b.expression, packet) if cls_is(b.expression, 'Condition') else
+            (sem_and(b.expression, packet) if cls_is(b.expression, 'Anded') else sem_or(b.expression, packet)))
+
+
+def sem_crit(c, packet, cur):
+    """truth of one match criterion of a criteria list (Comparison or BooleanExpression)"""
+    return sem_cmp(c, packet, cur) if cls_is(c, 'Comparison') else sem_bexp(c, packet)
+
+
+@uninterpreted('rec', 'packet', 'cur', 'bool')
+def ctx_match(cc, packet, cur):
+    """all criteria of a context calibrator hold (a list is a conjunction)"""
+    return all(sem_crit(c, packet, cur) for c in cc.match_criteria)
+
+
+@axiom
+def ctx_match_def(cc, packet, cur):
+    return ctx_match(cc, packet, cur) == forall(lambda j: sem_crit(at(cc.match_criteria, j), packet, cur), 0,
+                                                len(cc.match_criteria))
+
+
 # ---- calibration (C08) ----------------------------------------------------------------------------------------------------
 
 def chord(p0, p1, q):
     """value at q of the line through spline points p0 and p1"""
     return (p1.calibrated - p0.calibrated) / (p1.raw - p0.raw) * (q - p0.raw) + p0.calibrated
+
+
+@uninterpreted('rec', 'bytes', 'real')
+def float_field(enc, field_bytes):
+    """value of a float field from its bytes (as extracted, big-endian) for encoding object enc: IEEE-754 via
+    struct.unpack (E2) or MIL-STD-1750A"""
+    from specs.refsem import ref_float_raw
+    return ref_float_raw(enc, field_bytes)
+
+
+def no_ctx_match(enc, packet, cur, n):
+    """none of the first n context calibrators of the encoding matches"""
+    return forall(lambda k: not ctx_match(at(enc.context_calibrators, k), packet, cur), 0, n)
+
+
+def spline_ok(c):
+    """shape invariant of a spline calibrator (sorted by raw on construction; orders above 1 are rejected)"""
+    return (len(c.points) >= 1 and (c.order == 0 or c.order == 1) and (c.order == 0 or len(c.points) >= 2) and
+            forall(lambda i: forall(lambda j: at(c.points, i).raw < at(c.points, j).raw, i + 1, len(c.points)),
+                   0, len(c.points)))
+
+
+def cal_ok(c):
+    return spline_ok(c) if cls_is(c, 'SplineCalibrator') else True
+
+
+def spline_rel(c, x, y):
+    """y is the order-0 / order-1 interpolation of spline c at x (closed range; extrapolation outside)"""
+    return ((implies(c.order == 0 and at(c.points, 0).raw <= x and x <= at(c.points, len(c.points) - 1).raw,
+                     exists(lambda i: at(c.points, i).raw <= x and (i == len(c.points) - 1 or x < at(c.points, i + 1).raw)
+                            and y == at(c.points, i).calibrated, 0, len(c.points)))) and
+            (implies(c.order == 1 and at(c.points, 0).raw <= x and x <= at(c.points, len(c.points) - 1).raw,
+                     exists(lambda i: at(c.points, i).raw <= x and
+                            ((i == len(c.points) - 1 and y == at(c.points, i).calibrated) or
+                             (i < len(c.points) - 1 and x < at(c.points, i + 1).raw and
+                              y == chord(at(c.points, i), at(c.points, i + 1), x))), 0, len(c.points)))))
+
+
+def cal_raises(c, x):
+    """calibration fails (CalibrationError) exactly for a spline queried outside its closed range without extrapolation"""
+    return (cls_is(c, 'SplineCalibrator') and not c.extrapolate and
+            not (at(c.points, 0).raw <= x and x <= at(c.points, len(c.points) - 1).raw))
+
+
+@opaque('rec', 'real', 'real', 'bool')
+def is_calibration(c, x, y):
+    """y is what calibrator c prescribes for the raw value x (opaque to clients; revealed in the calibrators' proofs)"""
+    return (y == poly_value(c.coefficients, x)) if cls_is(c, 'PolynomialCalibrator') else spline_rel(c, x, y)
 
 
 def poly_value(coeffs, x):
